@@ -216,6 +216,23 @@ def rule_t(F):
             return True
         if depth > 3:
             return False
+        if g.is_closure:
+            # the body of a closure handed to an iterator adaptor (`iter().try_for_each(|f| ..)`) runs once per element
+            par = F.fn(g.parent, required=False) if g.parent else None
+            if par is not None and par.mir:
+                holders = set()
+                for b in par.blocks:
+                    for st in b["stmts"]:
+                        if st["k"] == "assign" and st["rv"]["k"] == "agg" and st["rv"]["agg"]["k"] == "closure" \
+                                and short(st["rv"]["agg"]["path"]) == g.short and not st["place"]["p"]:
+                            holders.add(st["place"]["l"])
+                for pbi, t in mu.calls(par):
+                    nm = callee_names(t["func"])
+                    if any("iter::Iterator::" in n for n in nm) and any(op_local(a) in holders for a in t["args"]):
+                        last = nm[0].rsplit("::", 1)[-1]
+                        if last in ("for_each", "try_for_each", "map", "try_fold", "fold", "all", "any", "inspect", "filter_map", "flat_map"):
+                            return True
+            return False
         seen = seen or set()
         if g.short in seen:
             return False
